@@ -334,6 +334,24 @@ def glued_command(line: str):
     return None
 
 
+# (final pass) a line JMC generated must be a COMPLETE command: the text component of a generated `tellraw` is JSON
+# (`tellraw @a "[WARNING] Missing dependency: other` - JMC.require(allowMissing=true) without the closing quote - does not load).
+TELLRAW = re.compile(r'^(?:execute (?:(?!\brun\b).)*\brun )?(?:return run )?tellraw (@[a-z](?:\[[^\] ]*\])?|[A-Za-z0-9_.#\-]+) (["{\[].*)$')
+
+
+def malformed_text_component(line: str):
+    if line.startswith("$") or "$(" in line:
+        return None                     # macro lines: the text is completed by Minecraft's substitution
+    m = TELLRAW.match(line)
+    if not m:
+        return None
+    try:
+        json.loads(m.group(2))
+        return None
+    except ValueError:
+        return m.group(2)[:200]
+
+
 def custom_conditions(job) -> set:
     return set(re.findall(r"^[ \t]*#condition[ \t]+(\S+)", job.get("header") or "", re.M))
 
@@ -443,6 +461,11 @@ def oracle(job, res) -> list[dict]:
                 if gl:
                     fails.append(dict(kind="two-commands-on-one-line", path=path, line_no=i + 1, line=line[:400], at=gl,
                                       user_literal=any(q + line + q in src for q in ('"', "'")) or gl in src))
+                    break
+                tc = malformed_text_component(line)
+                if tc and tc not in src and not any(part in src for part in (tc.rstrip(), line)):
+                    fails.append(dict(kind="malformed-text-component", path=path, line_no=i + 1, line=line[:400], component=tc,
+                                      user_literal=False))
                     break
                 if line != "" and (line.strip() == "" or re.search(r"(^| )run ?$", line)):
                     # a line that is not a command: blank, or an `execute ... run` with nothing after it
@@ -705,6 +728,10 @@ ADVERSARIAL = [
     ("firstjoin-namedfunc", dict(src='function greet() { say "hi"; }\nPlayer.firstJoin(greet);')),
     ("recipe", dict(src='Recipe.table({"type": "minecraft:crafting_shapeless", "ingredients": [{"item": "minecraft:oak_planks"}], "result": {"item": "minecraft:diamond", "count": 5}}, baseItem=knowledge_book, onCraft=()=>{ say "c1"; say "c2"; });')),
     ("require", dict(src='JMC.require(namespace=other, functionPath="other:main", errorMessage="missing");', header="#link other", pack_format=48)),
+    ("require-default", dict(src='JMC.require(namespace=other, functionPath="other:main");', header="#link other", pack_format=48)),
+    ("require-allow-missing", dict(src='JMC.require(namespace=other, functionPath="other:main", allowMissing=true);', header="#link other", pack_format=48)),
+    ("require-allow-missing-msg", dict(src='JMC.require(namespace=other, functionPath="other:main", errorMessage="not there", allowMissing=true);', header="#link other", pack_format=48)),
+    ("require-silent", dict(src='JMC.require(namespace=other, functionPath="other:main", errorMessage="", allowMissing=true);', header="#link other", pack_format=48)),
     ("with-macro", dict(src='function f() { $say "$(x)"; } function g() { f() with {x: 1}; execute as @a run f() with storage a:b c; }', pack_format=48)),
     ("switch-macro", dict(src='function f() { switch($x) { case 1: say "1"; say "1b"; case 5: say "5"; default: say "d"; } }', pack_format=48)),
     ("nested-func-decl", dict(src='class k { function a() { say "o"; function b() { say "i"; this.a(); } } }')),
